@@ -4,9 +4,10 @@ Actors: a coordinator (Creator / Updater / Combiner / Finalizer / Extractor,
 with a `SimDisk`), k cosigner hosts (each a `SoftwareSigner` on its own seed
 and its own `SimDisk`), a courier, and the auditor (this module's oracles).
 
-Workload per run (all drawn; `btcsim.gen.wallets`): 1-5 cosigners, 1-2
-wallets of the shapes {wpkh, pkh, sh(wpkh), tr(key), bare/sh/wsh/sh(wsh)
-[sorted]multi k-of-n, tr(key|NUMS, tree of pk / multi_a / sortedmulti_a
+Workload per run (all drawn; `btcsim.gen.wallets`): 1-5 cosigners (their
+ECDSA signatures low-R ground, plain RFC6979, or mixed), 1-2 wallets of the
+shapes {wpkh, pkh, sh(wpkh), tr(key), bare/sh/wsh/sh(wsh) [sorted]multi
+k-of-n with n <= 15, tr(key|NUMS, tree of pk / multi_a / sortedmulti_a
 leaves), wsh(miniscript) with older / after / hash leaves}, 1-4 inputs each
 updated by its descriptor, `tx_builder.build_psbt` at a drawn fee rate with a
 change script or none, PSBT v0 or v2, a sighash type per input. The
@@ -57,12 +58,12 @@ from copy import deepcopy
 from dataclasses import dataclass
 from typing import Any, Callable
 
+from btclib import bip322
 from btclib.bip32 import bip32
 from btclib.descriptors import parse as parse_descriptor
 from btclib.ecc import bms, ssa
 from btclib.exceptions import BTClibException
 from btclib.fee import dust_threshold, fee_from_vsize
-from btclib import bip322
 from btclib.psbt.psbt import Psbt, combine, ecdsa_sig_hash, extract_tx, finalize, new_signers, taproot_sig_hash
 from btclib.psbt.psbt_out import PsbtOut
 from btclib.psbt.psbt_view import PsbtView
@@ -154,7 +155,9 @@ class World:
         refuse with a library error; anything else it raises is C19's subject, and a refusal too."""
         if honest:
             with self.ctx.must_succeed(P10, inv, site):
-                return fn()
+                out = fn()
+            self.ctx.check(P10, inv, True)  # counted in the evidence
+            return out
         try:
             return fn()
         except LIB as e:
@@ -172,11 +175,13 @@ class World:
         if self.sim.capped:
             raise RunAborted("event cap reached")
         ctx.probe(f"rounds:{min(self.coord.round, 5)}")
-        late = max(0, -(-(self.coord.done_at - QUIESCE) // ROUND)) if self.coord.done_at is not None else None
+        done_at = self.coord.done_at
+        # with no fault, the first round; with faults, two rounds after they stop
+        in_time = done_at is not None and (done_at <= QUIESCE + 2 * ROUND if self.faulty else self.coord.round == 1)
         ctx.check(
-            P10, "liveness", self.coord.done_at is not None and (late or 0) <= 2,
-            lambda: f"not every asked cosigner's answer is in: pending {[c.name for c in self.coord.pending()]}, "
-            f"done_at={self.coord.done_at}, rounds={self.coord.round}",
+            P10, "liveness", in_time,
+            lambda: f"not every asked cosigner's answer is in (in time): pending {[c.name for c in self.coord.pending()]}, "
+            f"done_at={done_at}, rounds={self.coord.round}",
         )
         if self.coord.done_at is None:
             raise RunAborted("ceremony did not complete")
@@ -384,13 +389,13 @@ def run(ctx: Ctx) -> None:
     serving = bool(ch.draw(6, "backend")) and st.bindings_installed()
     st.set_backend(serving)
     faulty = bool(ctx.cfg.get("faults"))
-    cosigners = gw.make_cosigners(ch, 1 + ch.draw(5, "n.cosigners"))
+    cosigners = gw.make_cosigners(ch, 1 + ch.draw(5, "n.cosigners"), ctx.cfg.get("ecdsa"))
     shapes = list(ctx.cfg.get("shapes") or gw.SHAPES)
     first = list(ctx.cfg.get("first") or shapes)
     wallets = [gw.make_wallet(ch, first[ch.draw(len(first), "shape")], cosigners, 0)]
     if ch.draw(3, "second-wallet?") == 2:
-        wallets.append(gw.make_wallet(ch, shapes[ch.draw(len(shapes), "shape")], cosigners, 4))
-    ctx.log("start", f"bindings={serving}", f"faulty={faulty}", [w.shape for w in wallets], f"cosigners={len(cosigners)}")
+        wallets.append(gw.make_wallet(ch, shapes[ch.draw(len(shapes), "shape")], cosigners, 20))
+    ctx.log("start", f"bindings={serving}", f"faulty={faulty}", [w.shape for w in wallets], f"cosigners={''.join('g' if c.grind else 'p' for c in cosigners)}")
     with ctx.must_succeed(P18, "funded-psbt-builds", "build_psbt"):
         cer = gw.fund_and_build(ch, wallets, cosigners)
     if ctx.wants(P12):
@@ -401,7 +406,7 @@ def run(ctx: Ctx) -> None:
             if spec.wallet.kind == "taproot" and at not in seen:
                 seen.append(at)
                 _taproot_wallet(ctx, cosigners, spec.wallet, spec.index, faulty)
-    for spec, psbt_in in zip(cer.inputs, cer.psbt.inputs):
+    for spec, psbt_in in zip(cer.inputs, cer.psbt.inputs, strict=True):
         ctx.probe(f"shape:{spec.wallet.shape}")
         ctx.probe(f"path:{spec.path.label.split(':')[0]}" if spec.wallet.shape != "tr-tree" else f"path:tr-{'key' if spec.path.leaf is None else spec.wallet.leaves()[spec.path.leaf].kind}")
         ctx.probe(f"sighash:{psbt_in.sig_hash_type}")
@@ -418,6 +423,7 @@ def run(ctx: Ctx) -> None:
         tx = extract_tx(final)
     with ctx.must_succeed(P10, "closure", "verify_transaction"):
         verify_transaction(cer.prevouts, tx, gw.STANDARD_FLAGS)
+    ctx.check(P10, "closure", True)  # counted in the evidence
     ctx.log("accepted", tx.id, f"weight={tx.weight}")
     _signed_invariants(ctx, cer, tx)
     if ctx.wants(P10):
@@ -527,7 +533,7 @@ def _commitments(cer: gw.Ceremony, n_out: int) -> list[tuple[str, int, bool, boo
     """(kind, base type, anyone-can-pay, blind) per input. Unset means ALL (for taproot DEFAULT: the same
     commitments). Blind is the legacy SIGHASH_SINGLE with no output of its index: the digest is the constant 1."""
     out = []
-    for j, (spec, psbt_in) in enumerate(zip(cer.inputs, cer.psbt.inputs)):
+    for j, (spec, psbt_in) in enumerate(zip(cer.inputs, cer.psbt.inputs, strict=True)):
         t = psbt_in.sig_hash_type or sig_hash.ALL
         kind, base = spec.wallet.kind, t & 3
         out.append((kind, base, bool(t & sig_hash.ANYONECANPAY), kind == "legacy" and base == sig_hash.SINGLE and j >= n_out))
@@ -843,7 +849,7 @@ def _digests_before(ctx: Ctx, cer: gw.Ceremony) -> Digests:
     direct: Digests = {}
     with ctx.must_succeed(P09, "direct-digest-computes", "precompute"):
         precomputed = sig_hash.PrecomputedTxData(tx, cer.prevouts)
-    for i, (spec, psbt_in) in enumerate(zip(cer.inputs, request.inputs)):
+    for i, (spec, psbt_in) in enumerate(zip(cer.inputs, request.inputs, strict=True)):
         is_tr = spec.wallet.kind == "taproot"
         legal = [t for t in gw.SIGHASH_TYPES[1:] if not (is_tr and t & 3 == sig_hash.SINGLE and i >= len(tx.vout))]
         own = psbt_in.sig_hash_type if psbt_in.sig_hash_type is not None else (sig_hash.DEFAULT if is_tr else sig_hash.ALL)
@@ -918,7 +924,7 @@ def _digests_after(ctx: Ctx, cer: gw.Ceremony, signed: Psbt, tx: Tx, direct: Dig
 # ---------------------------------------------------------------------------
 # check definitions
 # ---------------------------------------------------------------------------
-def _plans(extra: dict[str, Any] | None = None) -> Callable[[str], list[Any]]:
+def _plans(extra: dict[str, Any] | None = None, more: list[tuple[dict[str, Any], float, str]] | None = None) -> Callable[[str], list[Any]]:
     def plans(tier: str) -> list[Any]:
         from btcsim.core.runner import Plan  # noqa: PLC0415
 
@@ -926,6 +932,7 @@ def _plans(extra: dict[str, Any] | None = None) -> Callable[[str], list[Any]]:
         return [
             Plan("ceremony", {**cfg, "faults": False}, share=1.0, chunk=20, label="ceremony/fault-free"),
             Plan("ceremony", {**cfg, "faults": True}, share=2.0, chunk=20, label="ceremony/faulty"),
+            *[Plan("ceremony", c, share=share, chunk=20, label=label) for c, share, label in more or []],
         ]
 
     return plans
@@ -951,7 +958,7 @@ CHECKS = {
     },
     "C18": {
         "level": "exploration",
-        "plans": _plans(),
+        "plans": _plans(more=[({"faults": False, "ecdsa": "plain", "first": ["sh-multi", "multi", "pkh", "wsh-multi", "sh-wsh-multi"]}, 1.5, "ceremony/ecdsa-72-byte")]),
         "rule": _RULE + "C18: accounting identities at funding time (with the exact-funds boundary probed on a third of the runs) and against the transaction the signers and finalizer really produced.",
         "assumptions": [*_ASSUME, "unit conversions and money-range refusals are pure arithmetic and not exercised here"],
     },
